@@ -239,7 +239,7 @@ def run(ctx):
     stages = set((os.environ.get("VERIF_STAGES") or "mc,asis,bfs,sim,trace,selftest").split(","))  # development aid
     # 1. exhaustive model check of the design with the intended reply handling (Strict)
     mcs = [dict(allocs=2, k=2, inc=2, req=4), dict(allocs=3, k=1, inc=1, req=3), dict(allocs=1, k=2, inc=3, req=8),
-           dict(allocs=2, k=1, inc=3, req=6, limit=17)]
+           dict(allocs=2, k=1, inc=3, req=5, limit=17)]
     if thorough:
         mcs = [dict(allocs=2, k=2, inc=2, req=6), dict(allocs=3, k=1, inc=1, req=5), dict(allocs=3, k=1, inc=2, req=6),
                dict(allocs=1, k=2, inc=3, req=8), dict(allocs=2, k=1, inc=3, req=8), dict(allocs=2, k=1, inc=5, req=8),
@@ -265,7 +265,7 @@ def run(ctx):
     nontriv = set()
     plans = [dict(allocs=2, k=1, inc=2, req=3, outcomes=["ok", "err_applied", "missing", "nan_cur", "zero_inc", "neg_inc"]),
              dict(allocs=2, k=2, inc=1, req=3, outcomes=["ok", "nan_inc"])]
-    sims = [dict(allocs=3, k=2, inc=2, req=8, outcomes=HANDLED, num=120), dict(allocs=2, k=2, inc=3, req=8, outcomes=ALL_OUTCOMES, num=80, limit=40)]
+    sims = [dict(allocs=3, k=2, inc=2, req=8, outcomes=HANDLED, num=60), dict(allocs=2, k=2, inc=3, req=8, outcomes=ALL_OUTCOMES, num=60, limit=40)]
     if thorough:
         plans = [dict(allocs=2, k=1, inc=2, req=3, outcomes=ALL_OUTCOMES), dict(allocs=2, k=1, inc=2, req=4, outcomes=["ok", "missing", "zero_inc"]),
                  dict(allocs=2, k=2, inc=1, req=3, outcomes=["ok", "missing", "err_exec"]), dict(allocs=3, k=1, inc=1, req=4, outcomes=["ok", "err_applied"]),
@@ -275,8 +275,15 @@ def run(ctx):
                 dict(allocs=3, k=1, inc=1, req=8, outcomes=HANDLED, num=1000, limit=16), dict(allocs=3, k=2, inc=5, req=8, outcomes=HANDLED, num=1000),
                 dict(allocs=2, k=2, inc=1, req=8, outcomes=REPR, num=1000)]
     stored = [c["case"] for c in K.stored_finding_cases("C34", "schedule")]
+    pending = []          # quick tier: one harness run for all schedules (saves go test start-ups)
+
+    def submit(cases, label):
+        if thorough:
+            replay(ctx, cases, label)
+        else:
+            pending.extend(cases)
     if stored:
-        replay(ctx, copy.deepcopy(stored), "stored finding cases")
+        submit(copy.deepcopy(stored), "stored finding cases")
     sample_case = None
     for p in plans if "bfs" in stages else plans[:1]:
         lim = p.get("limit", 0)
@@ -294,7 +301,7 @@ def run(ctx):
                 nontriv.add(json.dumps(c["events"], sort_keys=True))
         ctx.sample(cases[len(cases) // 2])
         sample_case = sample_case or cases[len(cases) // 3]
-        replay(ctx, cases, "bfs %s" % p)
+        submit(cases, "bfs %s" % p)
     for s in sims if "sim" in stages else []:
         lim = s.get("limit", 0)
         r = ctx.tlc("Sequence_gen", "seq_gen.cfg", workers=1, mode="sim", sim="num=%d" % s["num"], depth=4 * s["req"] + 2,
@@ -318,14 +325,16 @@ def run(ctx):
             if nontrivial(c):
                 nontriv.add(json.dumps(c["events"], sort_keys=True))
         ctx.sample(cases[0])
-        replay(ctx, cases, "sim %s" % {k: v for k, v in s.items() if k != "outcomes"})
+        submit(cases, "sim %s" % {k: v for k, v in s.items() if k != "outcomes"})
+    if pending:
+        replay(ctx, pending, "all generated schedules")
     ctx.cov["distinct_nontrivial"] = len(nontriv)
     ctx.cov["rule"] = ("schedules = event sequences start/begin/fetch(outcome)/ret over allocators and sessions enumerated by TLC "
                        "(all with a bounded number of calls, plus seeded simulation); non-trivial = two allocators have fetches "
                        "outstanding at the same time or a session waits for an allocator's mutex, and some fetch outcome is not ok")
 
     # 4. V: goroutine runs recorded and validated by TLC
-    runs = mk_runs(ctx, rng, 14 if not thorough else 60, thorough)
+    runs = mk_runs(ctx, rng, 10 if not thorough else 60, thorough)
     lines = run_traces(ctx, runs, "free")
     bad_classes = BAD_PARSE if thorough else rng.sample(BAD_PARSE, 1)
     bad_runs = []
